@@ -78,6 +78,7 @@ order = [int(c) for c in sys.argv[2]]
 import numpy as np, torch, jax, dltype
 jax.config.update("jax_enable_x64", True)
 SHARED = ["bool", "int8", "int16", "int32", "int64", "uint8", "float16", "float32", "float64"]
+NP_ONLY = ["uint16", "uint32", "uint64"]
 def mk(lib, dt, shape):
     if lib == 0: return np.zeros(shape, dtype=dt)
     if lib == 1: return torch.zeros(shape, dtype=getattr(torch, dt))
@@ -93,13 +94,19 @@ for n in sorted(names):
         v = []
         for lib in order:
             for shape in ((2, 3), (0, 3), (2,)):
-                try:
-                    ann.check(mk(lib, dt, shape)); r = "ok"
-                except dltype.DLTypeError as e:
-                    r = type(e).__name__
-                except Exception as e:
-                    r = "EXC " + type(e).__name__
-                v.append((lib, shape, r))
+                arrays = [mk(lib, dt, shape)]
+                if lib == 0:
+                    # the same numpy dtype reached through its other spellings (C type codes such as 'q' = long long): equal dtype,
+                    # possibly another scalar class
+                    arrays += [np.zeros(shape, dtype=code) for code in "?bBhHiIlLqQpPefd" if np.dtype(code) == np.dtype(dt)]
+                for arr in arrays:
+                    try:
+                        ann.check(arr); r = "ok"
+                    except dltype.DLTypeError as e:
+                        r = type(e).__name__
+                    except Exception as e:
+                        r = "EXC " + type(e).__name__
+                    v.append((lib, shape, r))
         rows[dt] = v
     out[n] = rows
 # the same arrays as they appear while jax traces a function (jit / make_jaxpr): still jax arrays of that shape and dtype
